@@ -148,12 +148,12 @@ def _gen_q(rng, tier):
     nops = rng.randint(1, rng.choice([12, 40, 70] if not long else [40, 120, 220]))
     style = rng.choice(["mixed", "grow_drain", "remove_heavy", "descending", "readd"])
     ops, best = [], {}
-    key = rng.choice([None] * 7 + ["scaled", "min", "picky"])
+    key = rng.choice([None] * 7 + ["scaled", "min", "picky", "exact"])
     lo = rng.choice([0, -2, -5]) if key != "picky" else 0
 
     def bad_kind():
-        return rng.choice(["str", "tuple", "list", "huge", "obj", "bytes", "unhashable"]
-                          + (["none", "neg", "none"] if key == "picky" else []))
+        kinds = ["str", "tuple", "list", "obj", "bytes", "unhashable"] + ([] if key == "exact" else ["huge"])
+        return rng.choice(kinds + (["none", "neg", "none"] if key == "picky" else []))
 
     def rank():
         if rng.random() < 0.12 and key != "picky":
@@ -497,6 +497,7 @@ def _picky(p):
 KEYFN = {None: lambda p: -float(p or 0),            # the documented default, used here only to learn what it raises
          "scaled": lambda p: -3.0 * float(p or 0) - 7.0,
          "min": lambda p: float(p or 0),
+         "exact": lambda p: -(p or 0),               # returns int / Fraction / float / bool as given, not a float
          "picky": _picky}
 
 BAD = {"str": "urgent", "tuple": (1, 2), "list": [3], "huge": 10 ** 400, "obj": object(), "bytes": b"7x",
